@@ -44,6 +44,24 @@ theorem PREFIX_DISCIPLINE_block (cfg : RCfg) (hw : WrapPD cfg) (st : RState) (b 
     AllLines (PfxOK st.pfx st.snd) (renderBlock cfg st b).1 :=
   ((pd_all cfg hw).1 st b h hp hs).1
 
+/-- ADD_INDENTS_PD: the indent insertion shared by both real wrappers keeps the contract: the lines
+it produces, joined by newlines, start with the first-line prefix and then the continuation prefix
+(this is the wrappers' own last step before the adjacent-tag fix-up; the tag layers may afterwards
+move a block-level closing tag to column 0 on purpose, which is why `WrapPD` is a hypothesis of
+PREFIX_DISCIPLINE_partial and not a theorem about the complete wrappers). -/
+theorem ADD_INDENTS_PD (p s : Str) (ls : List Str) (hne : ls ≠ []) (hls : ∀ l ∈ ls, '\n' ∉ l)
+    (hp : '\n' ∉ p) (hs : '\n' ∉ s) :
+    AllLines (PfxOK p s) (joinWith ['\n'] (addIndents p s false ls) ++ ['\n']) := by
+  cases ls with
+  | nil => exact absurd rfl hne
+  | cons l rest =>
+    apply allLines_joinWith _ (by simp [addIndents])
+    intro x hx
+    simp only [addIndents, Bool.false_eq_true, if_false, List.mem_cons, List.mem_map] at hx
+    rcases hx with rfl | ⟨y, hy, rfl⟩
+    · exact ⟨by simp [hp, hls l (by simp)], PfxOK.of_pfx _ _ _⟩
+    · exact ⟨by simp [hs, hls y (by simp [hy])], PfxOK.of_snd _ _ _⟩
+
 /-- non-vacuity of the wrapper contract: the wrapper that writes the text on one line satisfies it -/
 example : WrapPD { wrap := fun t p _ => p ++ t.filter (· != '\n'), spacing := .preserve, defs := [] } := by
   intro t p s hp _
